@@ -148,6 +148,8 @@ counters!(
     loads_with_a_stall_ok,
     loads_refused_after_stall,
     monotonic_clock_reads_by_loader,
+    pause_ops,
+    paused_simulated_seconds,
     loads_refused_drained_source,
     runs_link_chain,
     chdir_ops,
@@ -1257,6 +1259,21 @@ impl Sim {
                         trace.push(format!("op{oi} SetClock -> {unix_s:?} s past the UNIX epoch"));
                     }
                 }
+                Op::Pause { ms } => {
+                    crate::simclock::advance_ms(*ms);
+                    advance_wall_ms(*ms);
+                    if let Some(u) = clock_now.as_mut() {
+                        *u += *ms / 1_000;
+                    }
+                    let mut w = self.world.borrow_mut();
+                    w.ctr.inc(C::pause_ops);
+                    w.ctr.add(C::paused_simulated_seconds, *ms / 1_000);
+                    w.log.byte(b'p');
+                    w.log.u64(*ms);
+                    if self.trace {
+                        trace.push(format!("op{oi} Pause: {ms} ms of simulated time pass"));
+                    }
+                }
                 Op::Chdir { away } => {
                     let mut w = self.world.borrow_mut();
                     if let Some(c) = w.cwd.as_mut() {
@@ -1329,6 +1346,7 @@ impl Sim {
                         None
                     };
                     let run_seed = sc.seed;
+                    let mono_offset = crate::simclock::offset_ns();
                     type Out = (std::thread::Result<RunResult>, Counters, Option<RealDisk>);
                     let outs: Vec<Out> = std::thread::scope(|s| {
                         let mut hs = Vec::new();
@@ -1343,6 +1361,7 @@ impl Sim {
                                 sim.trace = trace_on;
                                 sim.set_sched(sched.clone(), j);
                                 set_clock(clock_now);
+                                crate::simclock::set_offset_ns(mono_offset);
                                 if let Some(sh) = shared {
                                     sim.set_shared(sh);
                                 }
@@ -1796,6 +1815,8 @@ impl Sim {
                         let mut stats = ProbeStats::default();
                         let mut log = Fnv::default();
                         let table = &ctx.images[h.image].table;
+                        // lookups and conversions see simulated time as well
+                        let _under_test = crate::simclock::enter_loader();
                         let r = catch_unwind(AssertUnwindSafe(|| {
                             if *full {
                                 oracle::full_sweep(
